@@ -25,9 +25,17 @@ func harnessC13Failures() {
 	}
 	var reports []rep
 	opts := []Option{WithStore(fs)}
+	unencKind := vInt(0, 2) // the unencodable event: 0 by type (chan), 1 by value (NaN), 2 its own MarshalJSON yields invalid JSON
+	deadLetter := vBool() // the error handler publishes a (non-persistable) dead-letter event on the same bus
+	var busRef *EventBus
+	deadLetters := 0
 	if withHandler {
 		opts = append(opts, WithPersistenceErrorHandler(func(ev any, t reflect.Type, err error) {
 			reports = append(reports, rep{ev, t, err})
+			if deadLetter {
+				deadLetters++
+				Publish(busRef, evB{N: 9000}) // a persistable dead-letter event on the same bus
+			}
 		}))
 	}
 	if withTimeout {
@@ -37,11 +45,14 @@ func harnessC13Failures() {
 		opts = append(opts, WithObservability(&c20Obs{}))
 	}
 	bus := New(opts...)
+	busRef = bus
 	var gotA []int
 	gotBad := 0
 	Subscribe(bus, func(e evF) { gotA = append(gotA, e.N) })
 	Subscribe(bus, func(e evBad) { gotBad++ })
-	byValue := vBool() // the unencodable event is unencodable by value (NaN), not by type
+	byValue := unencKind == 1
+	gotSelfBad := 0
+	Subscribe(bus, func(e evSelfBad) { gotSelfBad++ })
 
 	// outcome per publish: 0 ok, 1 append rejected, 2 deadline, 3 unencodable
 	outs := make([]int, K)
@@ -63,6 +74,9 @@ func harnessC13Failures() {
 		if outs[i] == 3 {
 			if byValue {
 				Publish(bus, evF{N: i + 1, F: math.NaN()})
+			} else if unencKind == 2 {
+				Publish(bus, evSelfBad{N: i + 1})
+				nBad++
 			} else {
 				Publish(bus, evBad{})
 				nBad++
@@ -80,7 +94,7 @@ func harnessC13Failures() {
 	}
 
 	// delivery is unaffected
-	vAssert(len(gotA) == K-nBad && gotBad == nBad, "all-handlers-still-run")
+	vAssert(len(gotA) == K-nBad && gotBad+gotSelfBad == nBad, "all-handlers-still-run")
 	// exactly one append attempt per encodable publish, no retry
 	vAssert(fs.calls == K-nUnenc, "one-append-attempt-each")
 	for _, d := range fs.sawDeadline {
@@ -109,6 +123,8 @@ func harnessC13Failures() {
 			case 3:
 				if byValue {
 					vAssert(r.typ == reflect.TypeOf(evF{}), "report-has-type")
+				} else if unencKind == 2 {
+					vAssert(r.typ == reflect.TypeOf(evSelfBad{}), "report-has-type")
 				} else {
 					vAssert(r.typ == reflect.TypeOf(evBad{}), "report-has-type")
 					_, ok := r.ev.(evBad)
@@ -118,7 +134,17 @@ func harnessC13Failures() {
 		}
 	}
 	// the log holds exactly the successful events, offsets increasing
-	evs, _, err := mem.Read(context.Background(), OffsetOldest, 0)
+	all, _, err := mem.Read(context.Background(), OffsetOldest, 0)
+	var evs []*StoredEvent
+	nDL := 0
+	for _, se := range all {
+		if se.Type == "eventbus.evB" {
+			nDL++
+		} else {
+			evs = append(evs, se)
+		}
+	}
+	vAssert(nDL == deadLetters, "dead-letters-stored")
 	vAssert(err == nil && len(evs) == len(okNs), "log-has-only-successes")
 	for i := range evs {
 		var d evF
